@@ -8,8 +8,16 @@
  * (assumption A2/A3 in DESIGN.md). 2^40 bytes. */
 #define CQV_MAXBUF ((size_t)1 << 40)
 
+/* Canaries are compiled in only for the separate vacuity run (-DCQV_CANARIES): a failing
+ * assertion in the middle of a path leaves later obligations on that path undetermined
+ * (status UNKNOWN) in CBMC's all-properties mode, so the proof run carries none. */
+#ifdef CQV_CANARIES
 #define CQV_CANARY(msg) __CPROVER_assert(0, "canary: " msg)
 #define CQV_REACH(msg) __CPROVER_assert(0, "reach: " msg)
+#else
+#define CQV_CANARY(msg) ((void)0)
+#define CQV_REACH(msg) ((void)0)
+#endif
 
 size_t nondet_size_t(void);
 int nondet_int(void);
